@@ -9,6 +9,7 @@ import (
 	"go/token"
 	"go/types"
 	"math/big"
+	"os"
 	"sort"
 	"strings"
 
@@ -30,6 +31,7 @@ type Oblig struct {
 	Candidate *SolverResult // sat answer after dropping quantified facts (needs replay to be believed)
 	Vacuity bool
 	TimeoutS int // per-obligation solver timeout override
+	Hints    []*Term // ground integer terms offered for hypothesis instantiation
 }
 
 type namedTerm struct {
@@ -261,6 +263,8 @@ func (fr *Frame) analyze() {
 			add("panic.nil", ins)
 		case *ssa.Panic:
 			add("panic.explicit", ins)
+		case *ssa.Return:
+			add("return", ins)
 		case *ssa.If:
 			fr.ifOrd[ins] = len(fr.ifOrd) + 1
 		}
@@ -320,8 +324,8 @@ func (fr *Frame) oblige(kind string, ord int, suffix string, tags []string, st *
 	if fr.dryMode() {
 		return
 	}
-	if goal == True {
-		// trivially discharged by the simplifier; still counted
+	if dbg := os.Getenv("GOVC_DEBUG_OBLIG"); dbg != "" && strings.Contains(fmt.Sprintf("%s#%s%s[%d]%s", fr.run.name, fr.prefix, kind, ord, suffix), dbg) {
+		fmt.Fprintf(os.Stderr, "DEBUG %s[%d]%s goal=%s pcFalse=%v\n", kind, ord, suffix, debugTerm(goal, 6), st.pc == False)
 	}
 	name := fmt.Sprintf("%s#%s%s", fr.run.name, fr.prefix, kind)
 	if ord > 0 {
@@ -330,6 +334,15 @@ func (fr *Frame) oblige(kind string, ord int, suffix string, tags []string, st *
 	name += suffix
 	o := &Oblig{Name: name, Kind: kind, Func: fr.run.name, Tags: tags, PC: st.pc, Goal: goal, Text: text,
 		Pos: posString(fr.run.eng.prog, pos), Inputs: fr.run.inputs}
+	// instantiation hints: the current values of integer locals (loop counters, indexes)
+	for _, c := range sortedCells(st.cells) {
+		v := st.cells[c]
+		if v.K == KScalar && v.S.sort == SInt && v.S.kind != 'c' && v.T != nil {
+			if _, _, isInt := intRange(v.T); isInt && len(o.Hints) < 8 {
+				o.Hints = append(o.Hints, v.S)
+			}
+		}
+	}
 	fr.run.obligs = append(fr.run.obligs, o)
 }
 
@@ -385,6 +398,9 @@ func (fr *Frame) exec(st *State, args []Val) (*State, Val) {
 				st.cells[c] = scalar(False, types.Typ[types.Bool])
 			}
 		}
+	}
+	if fr.top {
+		fr.atHook("entry", "", nil, st)
 	}
 	fr.incoming[fn.Blocks[0]] = []edgeState{{nil, st}}
 	fr.runBlocks(fr.order, nil, nil)
@@ -464,8 +480,8 @@ func (fr *Frame) execBlock(b *ssa.BasicBlock, st *State, in map[*ssa.BasicBlock]
 			fr.edge(b, b.Succs[0], st, in, dryHead)
 			return
 		case *ssa.Return:
-			if fr.dry > 0 {
-				return
+			if dryHead != nil {
+				return // a dry run of this frame's own loop: paths leaving the loop are not followed
 			}
 			var rv Val
 			if len(x.Results) == 1 {
